@@ -1,8 +1,8 @@
 use crate::{
     channel::Sender,
     graph::{
-        AnySource, AnySubscriber, ReactiveNode, SourceSet, Subscriber,
-        ToAnySubscriber,
+        untrack, AnySource, AnySubscriber, ReactiveNode, SourceSet,
+        Subscriber, ToAnySubscriber,
     },
 };
 use or_poisoned::OrPoisoned;
@@ -40,9 +40,21 @@ impl ReactiveNode for RwLock<EffectInner> {
 
         drop(guard);
 
-        sources
-            .into_iter()
-            .any(|source| source.update_if_necessary())
+        // Check the sources without this effect installed as the observer: a memo
+        // that recomputes while we are only *checking* must be able to mark this
+        // effect dirty like any other subscriber (it skips the current observer,
+        // which is only right while the observer is actually running its function).
+        let any_changed = untrack(|| {
+            sources
+                .into_iter()
+                .any(|source| source.update_if_necessary())
+        });
+
+        // Either way the dirty flag has now been accounted for: if a source marked
+        // us while we were checking, that is this very run, not another one.
+        let was_marked = std::mem::take(&mut self.write().or_poisoned().dirty);
+
+        any_changed || was_marked
     }
 
     fn mark_check(&self) {
